@@ -16,6 +16,8 @@
 -/
 import Gama.Lemmas.Consistency
 import Gama.Lemmas.LinXNorth
+import Gama.Lemmas.GeoReal
+import Gama.Lemmas.C06Real
 namespace Gama.Props.C05Consistency
 open Gama Gama.Lin
 
@@ -32,6 +34,21 @@ theorem C05_bearing_distance_models_agree {K : Type} [TrigScalar K] [Trig K] [Tr
     Bearing.bearingDistance ya xa yb xb = Gen.Lin.bearingDistance ya xa yb xb ∧
     Cogo.bearingDistance ya xa yb xb = Gen.Lin.bearingDistance ya xa yb xb :=
   Lin.bearingDistance_models_agree h0 hT hTp hC hCp ya xa yb xb
+
+/-- **the three models over ℝ, concretely**: with the ONE `Scalar ℝ` (`Gama.instScalarReal`,
+    `Lemmas/RealScalar.lean`) and the ℝ instances of the three libm signatures that the property
+    theorems use — `Gama.instTrigScalarReal` (C05/C07, `Lemmas/LinSpec.lean`), `Gama.instTranscReal`
+    (C17/C18, `Lemmas/GeoReal.lean`), `Gama.C06R.instTrigReal` (C06, `Lemmas/C06Real.lean`) — the three
+    models of `bearing_distance` are the same function ℝ⁴ → ℝ².  No hypothesis is left: the three
+    instances name the same `atan2 y x = arg (x + y i)` and `M_PI = π` by definition, so a theorem of
+    C18 or C06 about its hand-written model is a theorem about the regenerated one. -/
+theorem C05_bearing_distance_models_agree_real (ya xa yb xb : ℝ) :
+    @Bearing.bearingDistance ℝ instScalarReal instTranscReal ya xa yb xb
+      = @Gen.Lin.bearingDistance ℝ instTrigScalarReal ya xa yb xb ∧
+    @Cogo.bearingDistance ℝ instScalarReal C06R.instTrigReal ya xa yb xb
+      = @Gen.Lin.bearingDistance ℝ instTrigScalarReal ya xa yb xb :=
+  @C05_bearing_distance_models_agree ℝ instTrigScalarReal C06R.instTrigReal instTranscReal
+    (Nat.cast_zero) (fun _ _ => rfl) rfl (fun _ _ => rfl) rfl ya xa yb xb
 
 /-- at `Float`, where the drivers execute the three models next to the C++, the instances meet the
     `atan2` / `M_PI` hypotheses by definition (same libm function, same 21-digit literal) -/
